@@ -841,6 +841,80 @@ func runUpdate(lc *lawsChecker, p c02Params, env *runner.Env, res *runner.Result
 	}
 	run(all, "all", false)
 	run(losing, "losing", true)
+	// One DBI message that lists the same key several times (legal input for the point-update strategy): what is
+	// left must be the fold of the merges in listing order, whether the target DBI starts empty or not.
+	runMulti := func(dbiName string, startEmpty bool) {
+		if cfg.DefaultTS != 0 {
+			return
+		}
+		_, err := lmdbx.Update(e, func(txn *lmdb.Txn) error {
+			if !startEmpty {
+				if err := lmdbx.Put(txn, dbiName, 0, []byte("zzz-unrelated"), storedBytes(Ver{TS: 5, Val: "u"}, cfg, lc.r)); err != nil {
+					return err
+				}
+			}
+			_, err := txn.OpenDBI(dbiName, lmdb.Create)
+			return err
+		})
+		if err != nil {
+			res.Verdict, res.Msg = runner.Inconclusive, err.Error()
+			return
+		}
+		d := snapshot.NewDBISize(1 << 16)
+		d.SetName(dbiName)
+		type multi struct {
+			key string
+			vs  []Ver
+		}
+		var ms []multi
+		for i := 0; i < 80; i++ {
+			m := multi{key: fmt.Sprintf("m%03d", i)}
+			for k := 0; k < 2+lc.r.Intn(2); k++ {
+				m.vs = append(m.vs, V[lc.r.Intn(len(V))])
+			}
+			ms = append(ms, m)
+			for _, v := range m.vs {
+				kv := toKV(v, cfg.Format)
+				kv.Key = []byte(m.key)
+				d.Append(kv)
+			}
+		}
+		err = e.Update(func(txn *lmdb.Txn) error {
+			dbi, err := txn.OpenDBI(dbiName, 0)
+			if err != nil {
+				return err
+			}
+			it, err := syncer.NewNativeIterator(cfg.Format, 1, d, 0, header.TxnID(txn.ID()), header.Timestamp(cfg.Cutoff))
+			if err != nil {
+				return err
+			}
+			it.HeaderPaddingBlock = cfg.Padding
+			return strategy.Update(txn, dbi, it)
+		})
+		if err != nil {
+			res.Violate("update-error", "strategy.Update with a DBI message that repeats keys failed: "+err.Error(), map[string]any{"cfg": cfg})
+			return
+		}
+		after, _, _ := lmdbx.DumpEnv(e)
+		got := map[string][]byte{}
+		for _, kv := range after[dbiName].KVs {
+			got[string(kv.K)] = kv.V
+		}
+		for _, m := range ms {
+			var exp []byte
+			for _, v := range m.vs {
+				if o, err := mergeReal(exp, toKV(v, cfg.Format), cfg); err == nil {
+					exp = o
+				}
+			}
+			if describe(got[m.key]) != describe(exp) {
+				res.Violate("repeated-key-not-merged-in-order", fmt.Sprintf("DBI message lists %s with versions %v (target DBI empty at start: %v): Update left %s, merging them in listing order gives %s", m.key, m.vs, startEmpty, describe(got[m.key]), describe(exp)), map[string]any{"cfg": cfg})
+			}
+			res.Count("repeated_key_folds_compared", 1)
+		}
+	}
+	runMulti("multi-empty", true)
+	runMulti("multi-nonempty", false)
 	res.NonTrivial = true
 }
 
